@@ -50,6 +50,8 @@ TYPES = {
     "RefStr": ("&'a str", '""', ['"borrowed"']),
     "CG": ("CG<N>", "CG::<3>(0u8)", ["CG::<3>(5u8)"]),
     "F64": ("f64", "0f64", ["1.5f64", "-0.25f64"]),
+    "Item": ("I::Item", "0u8", ["5u8", "77u8"]),
+    "RefItem": ("&'a I::Item", "&0u8", ["&5u8"]),
     "Tup": ("(u8, bool)", "(0u8, false)", ["(1u8, true)"]),
 }
 
@@ -226,6 +228,9 @@ GENERICS = {
     "aT": ("<'a, T: Default>", "", "::<'static, u8>"),
     "N": ("<const N: usize>", "", "::<3>"),
     "TN": ("<T: Default, const N: usize>", "", "::<u8, 3>"),
+    "aTw": ("<'a, T>", " where T: Clone + 'a", "::<'static, u8>"),
+    "I": ("<I>", " where I: Iterator, I::Item: Clone", "::<std::vec::IntoIter<u8>>"),
+    "aI": ("<'a, I: Iterator>", " where I::Item: 'a", "::<'static, std::vec::IntoIter<u8>>"),
 }
 
 
